@@ -78,6 +78,35 @@ def fields(t):
     return {"flops": t.flops, "write": t.write, "max_size": t.max_size, "peak_size": t.peak_size}
 
 
+class _BondWatch:
+    """Largest (multi)bond size the library itself computes while simulating with
+    no cap: every value HyperGraph.edges_size returns to HyperGraph.compress (the
+    merged size that would be capped) and to neighborhood_compress_cost (the bond
+    that would be charged a compression).  With chi equal to that value nothing
+    is truncated, which is exactly the boundary of the property's claim."""
+
+    def __enter__(self):
+        import sys
+        from cotengra.hypergraph import HyperGraph
+
+        self.cls, self.orig, self.largest = HyperGraph, HyperGraph.edges_size, None
+        watch = self
+
+        def edges_size(hg, es):
+            r = watch.orig(hg, es)
+            if sys._getframe(1).f_code.co_name in ("compress", "neighborhood_compress_cost"):
+                if watch.largest is None or r > watch.largest:
+                    watch.largest = r
+            return r
+
+        HyperGraph.edges_size = edges_size
+        return self
+
+    def __exit__(self, *a):
+        self.cls.edges_size = self.orig
+        return False
+
+
 def check_estimates(inputs, output, sd, ssa, order, late, info=None):
     """None or message.  One (network, tree, order, compress_late) case, all chi."""
     from cotengra import ContractionTree
@@ -87,7 +116,17 @@ def check_estimates(inputs, output, sd, ssa, order, late, info=None):
         warnings.simplefilter("ignore")
         try:
             tree = ContractionTree.from_path(inputs, output, sd, ssa_path=ssa)
-            big = fields(tree.compressed_contract_stats(chi=HUGE, order=order, compress_late=late))
+            with _BondWatch() as bw:
+                big = fields(tree.compressed_contract_stats(chi=HUGE, order=order, compress_late=late))
+            if bw.largest is not None:
+                # the cap sits exactly on the largest bond that arises: still nothing truncated
+                for chi_b in (bw.largest, bw.largest + 1):
+                    at = fields(tree.compressed_contract_stats(chi=chi_b, order=order, compress_late=late))
+                    if at != big:
+                        return (f"chi={chi_b} (largest bond arising without a cap = {bw.largest}, so nothing is truncated): "
+                                f"estimates {at} differ from the uncapped ones {big}")
+                if info is not None:
+                    info["boundary_checked"] = info.get("boundary_checked", 0) + 1
             if not pc.has_leaf_preprocessing(inputs, output):
                 steps, leaf = pc.simulate(inputs, output, sd, ssa, reduce_leaves=True)
                 tot = pc.totals(steps)
@@ -350,6 +389,7 @@ def _work(item):
                 case.update({"family": "finder", "how": how})
                 viols.append((f"C20 {lab} on {eq} sizes {pc.sizes_str(sd)}: {msg}", case))
     extra = {"cases_with_chi=huge_equality_checked": info.get("equal_checked", 0),
+             "cases with the cap exactly on the largest arising bond checked": info.get("boundary_checked", 0),
              "(case, chi) pairs where the cap actually changes a size estimate": info.get("truncating", 0)}
     return {"name": name, "n": n_eval, "keys": b"".join(keys), "viols": viols, "samples": samples, "fires": fires, "extra": extra}
 
@@ -448,6 +488,13 @@ def run_bounded(rep: Report, tier: str) -> None:
     agg.finish()
     # non-vacuity of the monotonicity claim: on the unchanged tree roughly every second (case, chi) pair is one
     # in which the cap really changes an estimate; if that never happens the "<= uncapped" comparison says nothing.
+    bkey = "cases with the cap exactly on the largest arising bond checked"
+    if rep.evaluations and not rep.extra.get(bkey, 0) and not rep.violations:
+        rep.undecided_obligation(
+            "C20 nothing-truncated boundary (bounded)",
+            "the harness never observed a bond size inside HyperGraph.compress / neighborhood_compress_cost, so the case "
+            "'cap equal to the largest bond' was not exercised (were those functions renamed?)",
+        )
     key = "(case, chi) pairs where the cap actually changes a size estimate"
     if rep.evaluations and not rep.extra.get(key, 0) and not rep.violations:
         rep.undecided_obligation(
